@@ -303,6 +303,16 @@ def _reload(ck, fx, cg):
                 bad |= {h for h in L.REORDERING if L._has_head(e, h)}
         ck.ob("R3.reload", "%s keeps sequences intact" % role, not bad, "", "no reordering / deduplicating collection on the path" if not bad else
               "a sequence passes through %s: order / multiplicity of its elements is not preserved" % "/".join(sorted(bad)))
+    # … and the writer's counterpart: what is written for the pool is every constant of the program, in order, each by
+    # its own serializer *as it stands in the pool* (a constant renamed, normalised or substituted on the way out is a
+    # different program after reload: constants are shared between all their uses)
+    try:
+        from . import c04 as _c04
+        _best, _shape, _probs = _c04.frame_writer(fx)
+        ck.ob("R3.reload", "the written pool holds the program's constants one-to-one, in order, as they are", not _probs, "",
+              "u16 n, then each of the n constants through its own serializer; globals and entry as stored" if not _probs else "; ".join(_probs))
+    except Exception as e:  # noqa
+        ck.ob("R3.reload", "the written pool holds the program's constants one-to-one, in order, as they are", False, "", "cannot extract (unprovable): %s" % e)
     # the loader is fed the bytes of the file: the CLI's input reader is byte-transparent
     from . import shared
     sites = shared.reader_transparency(fx)
